@@ -883,7 +883,7 @@ def filter_literal(
             + "L" * (ty.bit_length > 16)
             + "L" * (ty.bit_length > 32)
         )
-        assert isinstance(out, str)
+        out = "(-9223372036854775807LL - 1LL)" if value == -(2**63) else out  # the bare literal does not fit long long
         return out
 
     elif isinstance(ty, pydsdl.FloatType):
